@@ -39,7 +39,7 @@ FAMILY = [
 def build_probes(case):
     probes = []
     for k, idx in enumerate(case['tuple']):
-        q = dict(FAMILY[idx])
+        q = dict(idx) if isinstance(idx, dict) else dict(FAMILY[idx])
         nt = q['n_templates']
         if q.pop('unused_top', False):
             tpl = [i % (nt - 1) for i in range(nt + 1)]
@@ -193,7 +193,7 @@ def run_case(case, acc, order):
         acc.violation(sig, core.make_record(PROP, 'merge', sig, case=case, expected=exp, observed=got),
                       len(probes) * 10 ** 6 + order)
     if order % 37 == 0:
-        acc.sample({'probes': [{k: v for k, v in FAMILY[i].items()} for i in case['tuple']]})
+        acc.sample({'probes': [(i if isinstance(i, dict) else FAMILY[i]) for i in case['tuple']]})
 
 
 def explore(ctx):
@@ -205,6 +205,15 @@ def explore(ctx):
         for tup in itertools.product(pool, repeat=k):
             cases.append({'tuple': list(tup), 'fill': ctx.seed})
     ctx.run_cases(run_case, cases, sweep='probe-tuples')
+    # wide probes: merged channel indices exceed the range of narrow unsigned index tables
+    cases = []
+    for widths in ([120, 90, 70], [200, 100], [130, 130]):
+        for idt in ('uint8', 'uint16', 'int32'):
+            cases.append({'tuple': [{'n_channels': w, 'n_templates': 2 + (j % 2), 'channel_map': 'identity',
+                                     'geometry': 'grid', 'ind_dtype': idt, 'ind_high': True}
+                                    for j, w in enumerate(widths)],
+                          'fill': ctx.seed})
+    ctx.run_cases(run_case, cases, chunk=1, sweep='wide-probes')
     ctx.bounds = {'family': FAMILY, 'k_max': K}
     ctx.rule = ('state = one tuple of generated probe directories; transition = Merger.merge() on '
                 'them, every output array compared block by block with the inputs (channel blocks and '
